@@ -7,7 +7,7 @@ ID = "C08"
 LEVEL = "exploration"
 RULE = ("network R-p1-J1-p2-J2-p3-T: leak site {J1, J2, T, J1+J2, J1+T} x area {1e-4, 5e-3} x Cd {0.75, 0.6, 1.0} x window "
         "{(0,None),(0,2h),(1h,3h),(1h20,2h40) off-grid,(None,None) never started} x demand model {DD, PDD} x J1 elevation "
-        "{0, above the HGL (negative pressure)} x history {add, add+remove, add+remove+add} x hydraulic step {1h, 30min}; report "
+        "{0, above the HGL (negative pressure)} x history {add, add+remove, add+remove+add} x hydraulic step {1h, 30min} x pipe orientation {as drawn, p2 reversed, p1+p3 reversed}; report "
         "'ALL'; fully crossed in quick except area x Cd (pairs {(1e-4,0.75),(5e-3,0.6),(5e-3,1.0)}), thorough crosses everything. "
         "oracle: formula inside the window at p>1e-4, ~0 at p<=0, exactly 0 outside, off-grid instants solved, node balance, "
         "remove_leak == never had a leak. non-trivial: some leak discharges > 1e-6 at some step and is off at another")
@@ -27,14 +27,20 @@ def base(dm, high, hyd):
 def cases(tier):
     out = []
     ac = [(1e-4, 0.75), (5e-3, 0.6), (5e-3, 1.0)] if tier == "quick" else list(itertools.product((1e-4, 5e-3), (0.75, 0.6, 1.0)))
-    for sites, (area, cd), win, dm, high, hist, hyd in itertools.product(
-            (("J1",), ("J2",), ("T",), ("J1", "J2"), ("J1", "T")), ac, WINDOWS, ("DD", "PDD"), (False, True), HIST, (3600, 1800)):
+    for sites, (area, cd), win, dm, high, hist, hyd, rev in itertools.product(
+            (("J1",), ("J2",), ("T",), ("J1", "J2"), ("J1", "T")), ac, WINDOWS, ("DD", "PDD"), (False, True), HIST, (3600, 1800),
+            ((), ("p2",), ("p1", "p3"))):
         if tier == "quick" and hyd == 1800 and (hist != "add" or high):
             continue
+        if tier == "quick" and rev and (hist != "add" or hyd != 3600):
+            continue
         s = base(dm, high, hyd)
+        for ln in rev:      # pipe orientation: a junction then has 0 or 2 links that start at it
+            l = link(s, ln)
+            l["a"], l["b"] = l["b"], l["a"]
         s["leaks"] = [{"node": n, "area": area * (1 + i), "cd": cd, "start": win[0], "end": win[1]} for i, n in enumerate(sites)]
         s["hist"] = hist
-        s["id"] = {"sites": list(sites), "area": area, "cd": cd, "win": list(win), "dm": dm, "high": high, "hist": hist, "hyd": hyd}
+        s["id"] = {"sites": list(sites), "area": area, "cd": cd, "win": list(win), "dm": dm, "high": high, "hist": hist, "hyd": hyd, "rev": list(rev)}
         out.append(s)
     return out
 
